@@ -1017,7 +1017,7 @@ class StructOf(DataType):
         res = {'type': 'struct', 'members': dict((n, s.export_datatype())
                                                  for n, s in list(self.members.items()))}
         if set(self.optional) != set(self.members):
-            res['optional'] = self.optional
+            res['optional'] = list(self.optional)
         return res
 
     def __repr__(self):
